@@ -488,7 +488,7 @@ def run(ctx):
     ctx.stats["front_kinds_exhaustive"] = [k for k in kinds if not k.startswith("!buffer")]
     # ---- random family
     rnd = []
-    for i in range(ctx.n(160, 960)):
+    for i in range(ctx.n(160, 800)):
         rr = random.Random(f"{ctx.seed}/c18/r/{i}")
         s = random_sequence(rr, rr.choice([8, 20, 40, 60]))
         k = (i + ctx.seed) % len(NAMINGS)
